@@ -125,6 +125,14 @@ def _unit(i):
     # thread-per-connection mode is driven one connection per execution (connections share nothing there);
     # conversations with concurrent clients compare the two multiplexing modes
     modes = MODES if len(base.clients) == 1 else MODES[:2]
+    bound = base.features.get('_bound', _BOUND)
+    if bound >= 2:
+        # d <= 2 costs ~A^2/2 executions per mode (A = alternatives along the default execution): conversations
+        # with more than 120 alternatives stay at d <= 1 in this three-mode differential (their d <= 2
+        # exploration in one mode is C01 / C04 / C07's)
+        w0 = netmc.execute(remode(base, 'local'), ())
+        if sum(p.n - 1 for p in w0.points) > 120:
+            bound = 1
     for mode in modes:
         scn = remode(base, mode)
         outcomes = {}
@@ -134,7 +142,7 @@ def _unit(i):
             if o not in outcomes:
                 outcomes[o] = netmc.strip(w.choices)
             return []
-        st, _ = netmc.explore(scn, base.features.get('_bound', _BOUND), chk)
+        st, _ = netmc.explore(scn, bound, chk)
         res[mode] = outcomes
         stats[mode] = (st.executions, st.turns, len(st.traces), st.no_quiescence)
     viol = []
@@ -147,7 +155,7 @@ def _unit(i):
             viol.append({'mode': mode,
                          'only_in_' + mode: [(summarize(o), res[mode][o]) for o in only_here],
                          'only_in_local': [(summarize(o), res['local'][o]) for o in only_ref]})
-    return {'i': i, 'name': base.name, 'stats': stats, 'viol': viol, 'n_outcomes': {m: len(res[m]) for m in modes}}
+    return {'i': i, 'name': base.name, 'stats': stats, 'viol': viol, 'bound': bound, 'n_outcomes': {m: len(res[m]) for m in modes}}
 
 
 # ------------------------------------------------------------------ part 2: thrmc
@@ -265,6 +273,7 @@ def run(tier):
             rep.add(traces_validated_against_impl=ex, transitions=turns, states=traces)
         if max(r['n_outcomes'].values()) > 1:
             multi += 1
+        rep.add(**{'conversations_explored_at_d%d' % r['bound']: 1})
         base = _BASES[r['i']]
         if r['i'] % 9 == 0:
             rep.sample({'conversation': r['name'], 'distinct_outcomes_per_mode': r['n_outcomes']})
